@@ -61,6 +61,15 @@ theorem stepEqn_sound (I : Interp) (hyps d : Array Eqn) (hh : AllHold I hyps) (h
       subst ho
       simp only [Holds, eval, argsOk_sound I d hd as bs js ha]
     · simp at h
+  | eqT j =>
+    simp only [stepEqn] at h
+    split at h
+    · rename_i a b hj
+      have hab := hd j (a, b) hj
+      simp only [Holds] at hab
+      simp at h; subst h
+      simp only [Holds, eval, evalList, applyOp, allEqAdj, hab, tru]; simp
+    · simp at h
   | bnot j =>
     simp only [stepEqn] at h
     split at h
@@ -99,34 +108,26 @@ theorem runSteps_sound (I : Interp) (hyps : Array Eqn) (hh : AllHold I hyps) :
 theorem eval_tru (I : Interp) : eval I tru = .b true := by simp [tru, eval, evalList, applyOp]
 theorem eval_fls (I : Interp) : eval I fls = .b false := by simp [fls, eval, evalList, applyOp]
 
-/-- the hypothesis extracted from a clause literal holds whenever that literal is false -/
-theorem hypOf_sound (I : Interp) (hI : I.WF) (l : Term × Bool) (e : Eqn) (h : hypOf l = some e)
+/-- the hypotheses extracted from a clause literal hold whenever that literal is false -/
+theorem hypsOfLit_sound (I : Interp) (hI : I.WF) (l : Term × Bool) (e : Eqn) (h : e ∈ hypsOfLit l)
     (hfalse : evalB I l.1 = l.2) : Holds I e := by
-  unfold hypOf at h
-  split at h
-  · rename_i a b
-    split at h
-    · simp at h
-    · simp at h; subst h
-      simp only [evalB, eval, evalList, applyOp, allEqAdj, Val.toBool] at hfalse
-      simpa [Holds] using hfalse
-  · simp at h
-  · rename_i _ t _
-    split at h
+  unfold hypsOfLit at h
+  rcases List.mem_append.mp h with h1 | h2
+  · split at h1
+    · rename_i a b
+      split at h1
+      · simp at h1
+      · simp only [List.mem_singleton] at h1; subst h1
+        simp only [evalB, eval, evalList, applyOp, allEqAdj, Val.toBool] at hfalse
+        simpa [Holds] using hfalse
+    · simp at h1
+  · split at h2
     · rename_i hb
-      simp at h; subst h
-      obtain ⟨x, hx⟩ := isBool_eval I hI t hb
+      simp only [List.mem_singleton] at h2; subst h2
+      obtain ⟨x, hx⟩ := isBool_eval I hI l.1 hb
       simp only [evalB, hx, Val.toBool] at hfalse
-      simp [Holds, hx, eval_tru, hfalse]
-    · simp at h
-  · rename_i _ t _
-    split at h
-    · rename_i hb
-      simp at h; subst h
-      obtain ⟨x, hx⟩ := isBool_eval I hI t hb
-      simp only [evalB, hx, Val.toBool] at hfalse
-      simp [Holds, hx, eval_fls, hfalse]
-    · simp at h
+      cases hl : l.2 <;> simp [Holds, hx, eval_tru, eval_fls, hfalse, hl]
+    · simp at h2
 
 theorem hypsOf_hold (I : Interp) (hI : I.WF) (lits : List (Term × Bool))
     (hall : ∀ l ∈ lits, evalB I l.1 = l.2) : AllHold I (hypsOf lits).toArray := by
@@ -134,9 +135,9 @@ theorem hypsOf_hold (I : Interp) (hI : I.WF) (lits : List (Term × Bool))
   have hmem : e ∈ hypsOf lits := by
     have := Array.mem_of_getElem? hj
     simpa using this
-  simp only [hypsOf, List.mem_filterMap] at hmem
+  simp only [hypsOf, List.mem_flatMap] at hmem
   obtain ⟨l, hl, hle⟩ := hmem
-  exact hypOf_sound I hI l e hle (hall l hl)
+  exact hypsOfLit_sound I hI l e hle (hall l hl)
 
 theorem isNumeral_eval (I : Interp) (t : Term) (q : Rat) (h : isNumeral t = some q) : eval I t = .n q := by
   unfold isNumeral at h
